@@ -194,3 +194,36 @@ Proof.
     + apply lread_plain; auto.
     + apply lvalidate_msg.
 Qed.
+
+(* ---- size accounting of the legacy builder ----------------------------------------------------------- *)
+Lemma lmsg_len c r : valid_lcfg c -> blen (lmsg_of c r) = msg_size (lc_magic c) (r_key r) (r_value r).
+Proof.
+  intros (Hm & _). unfold lmsg_of, encode_msg, msg_size, LOG_OVERHEAD, record_overhead. cbv zeta.
+  rewrite !blen_app, !be_blen, msg_tail_len by exact Hm.
+  destruct Hm as [-> | ->]; cbn [Z.eqb]; lia.
+Qed.
+
+(* append() is refused exactly when offset != 0 and the bytes so far plus this message reach
+   batch_size; an accepted append adds exactly the message; size() is the number of bytes *)
+Theorem legacy_size_accounting c buf r : valid_lcfg c ->
+  let after := blen buf + blen (lmsg_of c r) in
+  let refuse := negb (r_offset r =? 0) && (lc_batch_size c <=? after) in
+  lappend c buf r =
+    (if refuse then buf else buf ++ lmsg_of c r,
+     if refuse then None
+     else Some (mkLMeta (r_offset r) (lmsg_crc c r) (blen (lmsg_of c r)) (lmsg_ts c r))).
+Proof.
+  intros Hc after refuse. subst after refuse. rewrite lmsg_len by exact Hc.
+  unfold lappend. fold (lmsg_ts c r).
+  destruct (negb (r_offset r =? 0) && (lc_batch_size c <=? blen buf + msg_size (lc_magic c) (r_key r) (r_value r)));
+    [reflexivity|].
+  f_equal. f_equal. f_equal.
+  (* the CRC reported in the metadata is the one written at bytes 12..16 *)
+  fold (lmsg_of c r). unfold lmsg_of, encode_msg. cbv zeta.
+  set (tail := msg_tail (lc_magic c) 0 (lmsg_ts c r) (r_key r) (r_value r)).
+  pose proof (slice_app_mid (be 8 (r_offset r) ++ be 4 (blen tail + 4)) (be 4 (crc32 tail)) tail) as Hs.
+  rewrite blen_app, !be_blen in Hs. rewrite <- !app_assoc in Hs.
+  change (Z.of_nat 8 + Z.of_nat 4) with 12 in Hs. change (12 + Z.of_nat 4) with 16 in Hs.
+  rewrite Hs. rewrite unsigned_be_small; [reflexivity|].
+  change (256 ^ Z.of_nat 4) with 4294967296. apply crc32_range.
+Qed.
